@@ -253,20 +253,45 @@ void Thesaurus::Erase(const EntityUID target) {
 
 void Thesaurus::UpdateState() {
   const auto order = TermGraph().TopologicalOrder();
-  for (const auto entity : order) {
-    storage.at(entity).term.UpdateFrom(context);
-  }
+  ResolveTerms(order);
   for (const auto entity : order) {
     storage.at(entity).definition.UpdateFrom(context);
   }
 }
 
+void Thesaurus::ResolveTerms(const VectorOfEntities& ordered) {
+  // Note: terms on a loop of references have no order of resolution. Each of them is resolved against the raw text
+  // of the others, so the result depends neither on the order of visiting nor on the previous resolution
+  const auto loops = TermGraph().GetAllLoopsItems();
+  SetOfEntities resolvedLoops{};
+  for (const auto entity : ordered) {
+    if (resolvedLoops.contains(entity)) {
+      continue;
+    }
+    const auto loop = std::find_if(std::begin(loops), std::end(loops),
+                                   [&entity](const auto& items) { return items.contains(entity); });
+    if (loop == std::end(loops)) {
+      storage.at(entity).term.UpdateFrom(context);
+      continue;
+    }
+    for (const auto member : *loop) {
+      storage.at(member).term.DropResolved();
+    }
+    std::vector<std::pair<EntityUID, lang::LexicalTerm>> resolved{};
+    for (const auto member : *loop) {
+      resolved.emplace_back(member, storage.at(member).term);
+      resolved.back().second.UpdateFrom(context);
+    }
+    for (auto& [member, term] : resolved) {
+      storage.at(member).term = std::move(term);
+    }
+    resolvedLoops.insert(std::begin(*loop), std::end(*loop));
+  }
+}
+
 void Thesaurus::OnTermChange(const EntityUID target) {
   auto expansion = TermGraph().ExpandOutputs({ target });
-  const auto ordered = TermGraph().Sort(expansion);
-  for (const auto entity : ordered) {
-    storage.at(entity).term.UpdateFrom(Context());
-  }
+  ResolveTerms(TermGraph().Sort(expansion));
   expansion = DefGraph().ExpandOutputs(expansion);
   for (const auto entity : expansion) {
     storage.at(entity).definition.UpdateFrom(Context());
